@@ -7,6 +7,7 @@ for i in $(seq 1 $N); do
   rm -rf $L/verif; mkdir -p $L
   [ -d $L/repo ] || git -C /repo worktree add -q --detach $L/repo HEAD
   git -C $L/repo checkout -q --detach $(git -C /repo rev-parse HEAD); git -C $L/repo checkout -q -- .; git -C $L/repo clean -fdq src
+  cp /repo/Cargo.lock $L/repo/Cargo.lock
   rsync -a --exclude target --exclude .git --exclude evidence --exclude replays /verif/ $L/verif/
   mkdir -p $L/verif/evidence $L/verif/replays
   sed -i "s#path = \"/repo\"#path = \"$L/repo\"#" $L/verif/harness/Cargo.toml $L/verif/smoke/Cargo.toml
